@@ -231,9 +231,12 @@ type ApplyStageRunner struct {
 	output  chan<- *BlockItem
 	errors  chan<- error
 	metrics *PipelineMetrics
-	done    chan struct{}
-	running bool
-	mu      sync.Mutex
+	// itemDone, if set, is called once per item when the apply stage has
+	// finished with it
+	itemDone func(*BlockItem)
+	done     chan struct{}
+	running  bool
+	mu       sync.Mutex
 }
 
 // NewApplyStageRunner creates a new runner for the apply stage.
@@ -261,6 +264,13 @@ func NewApplyStageRunner(
 		errors: errors,
 		done:   make(chan struct{}),
 	}
+}
+
+// SetItemDoneFunc sets a function that is called for every item once the apply
+// stage has finished with it (applied, failed or skipped), before the item is
+// forwarded. Must be called before Start() to avoid data races.
+func (r *ApplyStageRunner) SetItemDoneFunc(f func(*BlockItem)) {
+	r.itemDone = f
 }
 
 // SetMetrics sets the metrics collector for the runner.
@@ -330,6 +340,11 @@ func (r *ApplyStageRunner) run(ctx context.Context) {
 			// that became ready). This eliminates the data loss vulnerability from
 			// the previous callback-based approach where items could be dropped if
 			// the pending queue overflowed.
+			if r.itemDone != nil {
+				for _, p := range processed {
+					r.itemDone(p)
+				}
+			}
 			for _, p := range processed {
 				r.forwardItem(ctx, p)
 			}
